@@ -243,7 +243,7 @@ def _df_fillna(df, method = None, axis = 0, limit = None):
                 else:
                     res = res.iloc[:0]
             elif m == 'nona':
-                res = res[nonan.values]
+                res = res.loc[nonan.values] # by rows, also for a frame without rows
         else:
             if is_num(limit) and limit<0:
                 params = dict(limit=abs(limit)) if is_series(df) else dict(axis=axis, limit=abs(limit))
@@ -325,6 +325,8 @@ def _nona(df, value = np.nan, edge = None):
         mask = df == value
     while len(mask.shape) > 1:
         mask = mask.min(axis = 1)
+    if is_pd(df) and len(df) == 0: # nothing to remove; indexing a zero-row frame with an empty mask would select columns
+        return df
     res = df[~mask]
     if edge is None or len(res) == 0 or not is_pd(df):
         return res
